@@ -32,6 +32,7 @@ type Step struct {
 	Cache  string        `json:"cache,omitempty"`
 	Num    int           `json:"num,omitempty"`
 	Den    int           `json:"den,omitempty"`
+	Quiet  bool          `json:"quiet,omitempty"` // no queries after this step (queries reload evicted objects)
 }
 
 type Query struct {
@@ -43,7 +44,8 @@ type Query struct {
 // Names in inputs are generic ("app0{t=a}"); at run time every application name and tag value gets a suffix that
 // is unique per case, so that cases sharing the two storage directories do not see each other's data.
 type Input struct {
-	Stream  string  `json:"stream"` // plain | writeback
+	Stream   string `json:"stream"`             // plain | delone | cap | writeback
+	MaxNodes int    `json:"max_nodes,omitempty"` // MaxNodesSerialization for this case (0: 2048)
 	Steps   []Step  `json:"steps"`
 	Queries []Query `json:"queries"`
 }
@@ -256,6 +258,13 @@ func run(in Input) (res lib.Result) {
 	for _, c := range []string{"dimensions", "segments", "dicts", "trees"} {
 		withS.s.VerifEvict(c, 1)
 	}
+	// the node budget of the tree serializer for this case (read from the shared config at every save)
+	mn := in.MaxNodes
+	if mn <= 0 {
+		mn = 2048
+	}
+	withS.cfg.MaxNodesSerialization = mn
+	plainS.cfg.MaxNodesSerialization = mn
 
 	var steps []string
 	counts := map[string]int{}
@@ -298,8 +307,12 @@ func run(in Input) (res lib.Result) {
 			}
 		}
 		before := cacheTotal(withS.s)
-		answers := make([]string, len(in.Queries))
-		for i, q := range in.Queries {
+		nq := len(in.Queries)
+		if s.Quiet {
+			nq = 0
+		}
+		answers := make([]string, nq)
+		for i, q := range in.Queries[:nq] {
 			gw, ew := withS.get(q, seq)
 			gp, ep := plainS.get(q, seq)
 			answers[i] = lib.Pair(coqGet(gw, ew), coqGet(gp, ep))
@@ -351,7 +364,7 @@ func run(in Input) (res lib.Result) {
 
 	res.Coq = "{| c_steps := " + lib.List(steps) + "; c_dims := " + lib.List(dims) + " |}"
 	res.NonTrivial = nontrivial
-	res.Feat = map[string]interface{}{"stream": in.Stream, "steps": len(in.Steps), "queries": len(in.Queries),
+	res.Feat = map[string]interface{}{"stream": in.Stream, "steps": len(in.Steps), "queries": len(in.Queries), "max_nodes": mn,
 		"n_put": counts["put"], "n_delete": counts["delete"], "n_evict": counts["evict"], "n_restart": counts["restart"],
 		"n_writeback": counts["writeback"], "objects_reloaded": reloaded}
 	for c, n := range caches {
@@ -426,7 +439,164 @@ func profile(r *rand.Rand, stepIdx int) []treeu.Stack {
 var cacheNames = []string{"dimensions", "segments", "dicts", "trees"}
 var evictFracs = [][2]int{{1, 4}, {1, 2}, {1, 1}, {1, 1}}
 
+// ---- stream "delone": one application, several series; ONE of them is deleted after the trees of the others have
+// gone to disk (eviction or restart), so the survivors' trees must be decodable against the shared dictionary ----
+func genDelOne(r *rand.Rand) Input {
+	in := Input{Stream: "delone"}
+	cands := []string{"app0{t=a}", "app0{t=b}", "app0{t=a,u=b}", "app0{u=a}", "app0{}", "app0{t=c,u=a}"}
+	r.Shuffle(len(cands), func(i, j int) { cands[i], cands[j] = cands[j], cands[i] })
+	all := cands[:lib.Range(r, 2, 3)]
+	b := boundary(r, lib.Pick(r, []int64{100, 1000}))
+	put := func(i int) {
+		span := int64(lib.Range(r, 1, 4))
+		from := b + 10*int64(lib.Range(r, -9, 9))
+		in.Steps = append(in.Steps, Step{Kind: "put", Name: lib.Pick(r, all), From: from, Until: from + 10*span, Stacks: profile(r, i)})
+	}
+	maint := func(quiet bool) {
+		switch r.Intn(3) {
+		case 0:
+			in.Steps = append(in.Steps, Step{Kind: "restart", Quiet: quiet})
+		case 1:
+			in.Steps = append(in.Steps, Step{Kind: "evict", Cache: "trees", Num: 1, Den: 1, Quiet: quiet})
+		default:
+			in.Steps = append(in.Steps, Step{Kind: "evict", Cache: "trees", Num: 1, Den: 1, Quiet: quiet})
+			if lib.Chance(r, 0.5) {
+				in.Steps = append(in.Steps, Step{Kind: "evict", Cache: "dicts", Num: 1, Den: 1, Quiet: quiet})
+			}
+		}
+	}
+	// every series gets data
+	for i, nm := range all {
+		span := int64(lib.Range(r, 1, 4))
+		from := b + 10*int64(lib.Range(r, -9, 9))
+		in.Steps = append(in.Steps, Step{Kind: "put", Name: nm, From: from, Until: from + 10*span, Stacks: profile(r, i)})
+	}
+	for i := 0; i < lib.Range(r, 0, 2); i++ {
+		put(10 + i)
+	}
+	maint(lib.Chance(r, 0.8)) // mostly without queries in between: the trees stay on disk only while the delete runs
+	victim := lib.Pick(r, all)
+	if victim == "app0{}" { // a selector without tags would match every series
+		victim = all[0]
+		if victim == "app0{}" {
+			victim = all[1]
+		}
+	}
+	in.Steps = append(in.Steps, Step{Kind: "delete", Name: victim})
+	if lib.Chance(r, 0.5) {
+		maint(false)
+	}
+	for i := 0; i < lib.Range(r, 0, 2); i++ {
+		put(20 + i)
+	}
+	if lib.Chance(r, 0.5) {
+		maint(false)
+	}
+	for _, nm := range all {
+		in.Queries = append(in.Queries, Query{Name: nm, From: b - 100, Until: b + 200})
+	}
+	in.Queries = append(in.Queries, Query{Name: "app0{}", From: b - 100, Until: b + 200})
+	in.Queries = append(in.Queries, Query{Name: "app0{}", From: b, Until: b + 100})
+	return in
+}
+
+// ---- stream "cap": a small node budget (MaxNodesSerialization 8/16/32); all profiles of the case are drawn from one
+// stack universe whose tree has EXACTLY that many nodes (root included), with chains whose totals tie with the
+// smallest total, so stored trees reach the budget but never exceed it (above it eviction prunes by design) ----
+func genCap(r *rand.Rand) Input {
+	n := lib.Pick(r, []int{8, 8, 16, 16, 32})
+	in := Input{Stream: "cap", MaxNodes: n}
+	// random tree with n nodes: node i > 0 hangs below a random earlier node; names unique among siblings
+	parent := make([]int, n)
+	name := make([]string, n)
+	path := make([]string, n)
+	kids := make([]int, n)
+	for i := 1; i < n; i++ {
+		p := r.Intn(i)
+		if lib.Chance(r, 0.5) { // prefer extending the newest node: chains
+			p = i - 1
+		}
+		parent[i] = p
+		name[i] = fmt.Sprintf("%s%d", lib.Pick(r, []string{"a", "b", "c", "main"}), kids[p])
+		kids[p]++
+		if p == 0 {
+			path[i] = name[i]
+		} else {
+			path[i] = path[p] + ";" + name[i]
+		}
+	}
+	var leaves, inner []int
+	for i := 1; i < n; i++ {
+		if kids[i] == 0 {
+			leaves = append(leaves, i)
+		} else {
+			inner = append(inner, i)
+		}
+	}
+	prof := func() []treeu.Stack {
+		v := uint64(lib.Range(r, 1, 3))
+		tie := lib.Chance(r, 0.7)
+		var res []treeu.Stack
+		for _, l := range leaves {
+			if lib.Chance(r, 0.85) {
+				c := v
+				if !tie {
+					c = uint64(lib.Range(r, 1, 5))
+				}
+				res = append(res, treeu.Stack{Key: []byte(path[l]), V: c})
+			}
+		}
+		for _, i := range inner {
+			if lib.Chance(r, 0.15) {
+				res = append(res, treeu.Stack{Key: []byte(path[i]), V: uint64(lib.Range(r, 0, 3))})
+			}
+		}
+		if len(res) == 0 {
+			res = append(res, treeu.Stack{Key: []byte(path[leaves[0]]), V: v})
+		}
+		return res
+	}
+	all := []string{"app0{}"}
+	if lib.Chance(r, 0.5) {
+		all = append(all, "app0{t=a}")
+	}
+	b := boundary(r, lib.Pick(r, []int64{100, 1000}))
+	nsteps := lib.Range(r, 3, 8)
+	puts := 0
+	for i := 0; i < nsteps; i++ {
+		x := r.Intn(100)
+		switch {
+		case x < 50 || puts == 0:
+			span := int64(1)
+			if lib.Chance(r, 0.3) {
+				span = int64(lib.Range(r, 2, 5))
+			}
+			from := b + 10*int64(lib.Range(r, -5, 5))
+			in.Steps = append(in.Steps, Step{Kind: "put", Name: lib.Pick(r, all), From: from, Until: from + 10*span, Stacks: prof()})
+			puts++
+		case x < 80:
+			f := lib.Pick(r, evictFracs)
+			in.Steps = append(in.Steps, Step{Kind: "evict", Cache: lib.Pick(r, []string{"trees", "trees", "dicts", "segments"}), Num: f[0], Den: f[1]})
+		default:
+			in.Steps = append(in.Steps, Step{Kind: "restart"})
+		}
+	}
+	in.Steps = append(in.Steps, Step{Kind: "restart"})
+	for _, nm := range all {
+		in.Queries = append(in.Queries, Query{Name: nm, From: b - 100, Until: b + 200})
+	}
+	in.Queries = append(in.Queries, Query{Name: "app0{}", From: b, Until: b + 100})
+	in.Queries = append(in.Queries, Query{Name: "app0{}", From: b - 50, Until: b + 50})
+	return in
+}
+
 func gen(r *rand.Rand, idx int, tier string) Input {
+	switch idx % 6 {
+	case 3:
+		return genDelOne(r)
+	case 4:
+		return genCap(r)
+	}
 	in := Input{Stream: "plain"}
 	if idx%6 == 5 {
 		in.Stream = "writeback"
@@ -484,9 +654,9 @@ func gen(r *rand.Rand, idx int, tier string) Input {
 			}
 		case x < 82:
 			f := lib.Pick(r, evictFracs)
-			in.Steps = append(in.Steps, Step{Kind: "evict", Cache: lib.Pick(r, cacheNames), Num: f[0], Den: f[1]})
+			in.Steps = append(in.Steps, Step{Kind: "evict", Cache: lib.Pick(r, cacheNames), Num: f[0], Den: f[1], Quiet: lib.Chance(r, 0.3)})
 		case x < 92 || in.Stream != "writeback":
-			in.Steps = append(in.Steps, Step{Kind: "restart"})
+			in.Steps = append(in.Steps, Step{Kind: "restart", Quiet: lib.Chance(r, 0.3)})
 		default:
 			in.Steps = append(in.Steps, Step{Kind: "writeback"})
 		}
